@@ -25,7 +25,7 @@ THEOREMS = {
     'C05_filtered_neg': 'witness: an uncited parent that precedes its only child is lost by the filtered reading (finding C05-filtered-parent-before-child)',
     'C05_filtered_entries_partial': 'under the strong ordering proviso (the FIRST entry of an uncited parent follows a cited child that references it, and its own cross-reference target is cited, absent or later still) the filtered reading stores the same ENTRY (type, fields, persons) under every resolved key as the unfiltered one and gives the same keys and reports',
     'C05_constants_tied': "[tie to the source] the constants the model and the specification hard-code equal the ones harness/tablegen/c05.py reads from /repo on every run: the cross-reference field name, the wildcard, the engines' default citations = ['*'], one common default min_crossrefs in the five signatures that have one, one wording of the missing-entry report in both engines",
-    'C05_constructor_eq_reader': 'for every wanted set and entry sequence, BibliographyData(entries, wanted_entries) / add_entries builds the same database with the same reports as the .bib reader does from a file with those entries (the SkipEntry test decides nothing add_entry would not): no hypothesis',
+    'C05_constructor_eq_reader': "[model wiring] the model of BibliographyData(entries, wanted_entries) / add_entries (fold of add_entry) equals the model of the reader's entry loop (the same fold with the SkipEntry guard in front): the guard repeats add_entry's own first test; that both models are the code is the differential check (ops add_entries, resolve)",
     'C05_format_bibliography_spec': "hypothesis DbWF db (container invariant, C05_reader_wf): format_bibliography(db, citations) never ends in KeyError, formats exactly the resolved citations that have an entry, in order, each under the DATABASE's spelling of its key, reports the dangling cross-references of the resolved list and then every resolved key without entry as missing",
     'C05_none_is_whole_database': "hypothesis DbWF db: format_bibliography(db) with citations=None equals format_bibliography(db, ['*']), formats every entry in database order under the database's keys (also when a key is *), appends nothing, reports no missing entry and exactly the dangling cross-references of all entries",
     'C05_read_whole_first_wins': "for every file of well-formed entries: reading it whole never raises, the database is the specification's readAll of the file (first entry of every key up to case, file order, spelled as there) and exactly the later entries whose key is already there are reported as repeated, in file order (reference values of the oracle clause read_first_wins)",
